@@ -1,6 +1,7 @@
 import RModel.Base.Bytes
 import RModel.Model.CaseModel
 import RModel.Model.LinePipeline
+import RModel.Model.LineEnv
 import RModel.Gen.Acronyms
 import RModel.Gen.Styles
 import Driver.OpsCase
@@ -10,8 +11,11 @@ import Driver.OpsCase
     rewriteline <hex line> <hex search> <hex replace> <opts> <p0|p1> [<singS> <plurS> <singR> <plurR>]
         the four optional fields are the real pluralizer's answers (`none` or hex) for the last token of the search and of
         the replacement term (obtained from the harness op `plforms`); they instantiate the `sing`/`plur` parameters.
-        -> `r ok <hex new line> <n> (<col> <hex content> <hex replace>)*`, `r applyerr …` when the edits do not apply,
-           `r unmodelled` when a hunk needs the part of `apply_coercion` that is a parameter of the model
+        -> `r ok <hex new line> <n> (<col> <hex content> <hex replace>)*`, `r applyerr …` when the edits do not apply.
+           Runs the COMPOSED model `LinePipeline.lineHunksReal` (`Model/LineEnv.lean`): real coercion decision, real compound
+           pass with overlap resolution, the scanner's pre-filter.
+    rewriteline0 …same fields…                 the pipeline with the stub environment `env` (coercion only through its first
+           exit, no compound hunk): `r unmodelled` when a hunk needs the part of `apply_coercion` that is a parameter there
     filtercompat <hex text> <all|names>      -> `c <names|->`
     resolve <hex matched> <hex replacement>  -> `s <name>`      (no context heuristics)
     stylelist <opts>                         -> `y <names>`     (`Plan.styles`)
@@ -60,7 +64,7 @@ def env : Env :=
 def table (k1 : Option Bytes) (v1 : Option Bytes) (k2 : Option Bytes) (v2 : Option Bytes) (t : Bytes) : Option Bytes :=
   if some t == k1 then v1 else if some t == k2 then v2 else none
 
-def rewrite (line search replace : Bytes) (o : StyleOpts) (plurals cli : Bool)
+def rewrite (real : Bool) (line search replace : Bytes) (o : StyleOpts) (plurals cli : Bool)
     (forms : Option Bytes × Option Bytes × Option Bytes × Option Bytes) : String :=
   let A := OpsCase.A
   let ls := (parse A search).getLast?
@@ -70,7 +74,7 @@ def rewrite (line search replace : Bytes) (o : StyleOpts) (plurals cli : Bool)
       sing := table ls forms.1 lr forms.2.2.1
       plur := table ls forms.2.1 lr forms.2.2.2
       search := search, replace := replace, cliPath := cli }
-  match lineHunks cfg line with
+  match (if real then lineHunksReal cfg line else lineHunks cfg line) with
   | none => "r nohunk"
   | some es =>
     if es.any (fun e => e.after == marker) then "r unmodelled"
@@ -80,8 +84,7 @@ def rewrite (line search replace : Bytes) (o : StyleOpts) (plurals cli : Bool)
       | .ok b => " ".intercalate (["r", "ok", hexOrDash b, toString es.length] ++ cells)
       | .error _ => " ".intercalate (["r", "applyerr", hexOrDash line, toString es.length] ++ cells)
 
-def dispatch : List String → Option String
-  | "rewriteline" :: hl :: hs :: hr :: so :: p :: rest =>
+def rewriteReq (real : Bool) (hl hs hr so p : String) (rest : List String) : Option String :=
     let forms : Option (Option Bytes × Option Bytes × Option Bytes × Option Bytes) :=
       match rest with
       | [] => some (none, none, none, none)
@@ -93,8 +96,12 @@ def dispatch : List String → Option String
     match ofHex hl, ofHex hs, ofHex hr, parseOpts so, forms,
         (if p == "p0" then some (false, false) else if p == "p1" then some (true, false)
          else if p == "q0" then some (false, true) else if p == "q1" then some (true, true) else none) with
-    | some l, some s, some r, some o, some f, some pl => some (rewrite l s r o pl.1 pl.2 f)
+    | some l, some s, some r, some o, some f, some pl => some (rewrite real l s r o pl.1 pl.2 f)
     | _, _, _, _, _, _ => some "bad-req"
+
+def dispatch : List String → Option String
+  | "rewriteline" :: hl :: hs :: hr :: so :: p :: rest => rewriteReq true hl hs hr so p rest
+  | "rewriteline0" :: hl :: hs :: hr :: so :: p :: rest => rewriteReq false hl hs hr so p rest
   | ["filtercompat", ht, st] =>
     match ofHex ht, (if st == "all" then some Gen.allStyles else names st) with
     | some t, some l => some s!"c {showStyles (filterCompatible OpsCase.A t l)}"
